@@ -97,8 +97,10 @@ struct Text {
 
 #[derive(Clone, PartialEq, Debug)]
 enum Op {
-    Open(Url, Lang, Text),
-    Change(Url, Text),
+    /// the last field of Open / Change is `textDocument.version` (0 in a parsed input = not given: numbered
+    /// by `renumber`)
+    Open(Url, Lang, Text, usize),
+    Change(Url, Text, usize),
     Save(Url),
     Close(Url),
     DelFile(usize, usize),
@@ -112,8 +114,8 @@ enum Op {
 impl Op {
     fn tok(&self, order: &[Url]) -> String {
         match self {
-            Op::Open(u, l, t) => format!("O {} {} {} {}", u.tok(), l.tok(), t.tid, t.ident),
-            Op::Change(u, t) => format!("C {} {} {}", u.tok(), t.tid, t.ident),
+            Op::Open(u, l, t, v) => format!("O {} {} {} {} {v}", u.tok(), l.tok(), t.tid, t.ident),
+            Op::Change(u, t, v) => format!("C {} {} {} {v}", u.tok(), t.tid, t.ident),
             Op::Save(u) => format!("S {}", u.tok()),
             Op::Close(u) => format!("X {}", u.tok()),
             Op::DelFile(d, n) => format!("DF {d} {n}"),
@@ -137,8 +139,8 @@ impl Op {
         let n = |i: usize| -> Option<usize> { t.get(i)?.parse().ok() };
         let u = |i: usize| -> Option<Url> { Url::parse(t.get(i)?) };
         Some(match *t.first()? {
-            "O" => Op::Open(u(1)?, Lang::parse(t.get(2)?), Text { tid: n(3)?, ident: n(4)? }),
-            "C" => Op::Change(u(1)?, Text { tid: n(2)?, ident: n(3)? }),
+            "O" => Op::Open(u(1)?, Lang::parse(t.get(2)?), Text { tid: n(3)?, ident: n(4)? }, n(5).unwrap_or(0)),
+            "C" => Op::Change(u(1)?, Text { tid: n(2)?, ident: n(3)? }, n(4).unwrap_or(0)),
             "S" => Op::Save(u(1)?),
             "X" => Op::Close(u(1)?),
             "DF" => Op::DelFile(n(1)?, n(2)?),
@@ -154,7 +156,7 @@ impl Op {
     /// the document the handler works on (None: global)
     fn url(&self) -> Option<Url> {
         match self {
-            Op::Open(u, ..) | Op::Change(u, _) | Op::Save(u) | Op::Close(u) | Op::AddUser(_, u) | Op::AddFile(_, u) | Op::Ignore(u, _) => Some(*u),
+            Op::Open(u, ..) | Op::Change(u, ..) | Op::Save(u) | Op::Close(u) | Op::AddUser(_, u) | Op::AddFile(_, u) | Op::Ignore(u, _) => Some(*u),
             _ => None,
         }
     }
@@ -229,6 +231,7 @@ impl Case {
         for o in v["ops"].as_array()? {
             c.ops.push(Op::parse(o.as_str()?)?);
         }
+        renumber(&mut c.ops);
         match v["sched"].as_str() {
             Some(s) => {
                 for t in s.split_whitespace() {
@@ -259,10 +262,48 @@ impl Case {
     }
 }
 
+/// messages without a version get one: one more than the largest version before them (as an editor
+/// that counts every message would)
+fn renumber(ops: &mut [Op]) {
+    let mut last = 0;
+    for o in ops.iter_mut() {
+        if let Op::Open(_, _, _, v) | Op::Change(_, _, v) = o {
+            if *v == 0 {
+                *v = last + 1;
+            }
+            last = last.max(*v);
+        }
+    }
+}
+
+/// do the versions of every document increase from one message to the next within an open session
+/// (from a didOpen to the next didOpen of the same document)?  The property speaks of the newest text the
+/// client sent; a client whose versions go backwards has no "newest" the server could know of.
+fn versions_increase(ops: &[Op]) -> bool {
+    let mut cur: BTreeMap<Url, usize> = BTreeMap::new();
+    for o in ops {
+        match o {
+            Op::Open(u, _, _, v) => {
+                cur.insert(*u, *v);
+            }
+            Op::Change(u, _, v) => {
+                if let Some(c) = cur.get(u) {
+                    if *v <= *c {
+                        return false;
+                    }
+                }
+                cur.insert(*u, *v);
+            }
+            _ => {}
+        }
+    }
+    true
+}
+
 impl Case {
     /// every document keeps one language throughout a case: that of its first didOpen (plain text if none)
     fn lang_of(&self, u: Url) -> Lang {
-        self.ops.iter().find_map(|o| match o { Op::Open(u2, l, _) if *u2 == u => Some(*l), _ => None }).unwrap_or(Lang::P)
+        self.ops.iter().find_map(|o| match o { Op::Open(u2, l, ..) if *u2 == u => Some(*l), _ => None }).unwrap_or(Lang::P)
     }
 }
 
@@ -661,12 +702,12 @@ fn lint_json_for(text: &Rendered, lang: Lang, k: usize, user: &BTreeSet<usize>, 
     Value::Null
 }
 
-fn request_of(w: &World, c: &Case, op: &Op, client: &Client, udict: &BTreeSet<usize>, fdict: &BTreeSet<usize>, version: i64) -> (&'static str, Value, bool) {
+fn request_of(w: &World, c: &Case, op: &Op, client: &Client, udict: &BTreeSet<usize>, fdict: &BTreeSet<usize>) -> (&'static str, Value, bool) {
     match op {
-        Op::Open(u, l, t) => ("textDocument/didOpen", json!({"textDocument": {"uri": w.uri(*u), "languageId": l.lsp_id(), "version": version, "text": render(*t, *l).text}}), false),
-        Op::Change(u, t) => {
+        Op::Open(u, l, t, v) => ("textDocument/didOpen", json!({"textDocument": {"uri": w.uri(*u), "languageId": l.lsp_id(), "version": *v as i64, "text": render(*t, *l).text}}), false),
+        Op::Change(u, t, v) => {
             let lang = c.lang_of(*u);
-            ("textDocument/didChange", json!({"textDocument": {"uri": w.uri(*u), "version": version}, "contentChanges": [{"text": render(*t, lang).text}]}), false)
+            ("textDocument/didChange", json!({"textDocument": {"uri": w.uri(*u), "version": *v as i64}, "contentChanges": [{"text": render(*t, lang).text}]}), false)
         }
         Op::Save(u) => ("textDocument/didSave", json!({"textDocument": {"uri": w.uri(*u)}}), false),
         Op::Close(u) => ("textDocument/didClose", json!({"textDocument": {"uri": w.uri(*u)}}), false),
@@ -689,10 +730,10 @@ fn request_of(w: &World, c: &Case, op: &Op, client: &Client, udict: &BTreeSet<us
 /// what the client and the file system do at the moment the message is sent
 fn client_effect(w: &World, op: &Op, cl: &mut Client) {
     match op {
-        Op::Open(u, l, t) => {
+        Op::Open(u, l, t, _) => {
             cl.open.insert(*u, (*l, *t, BTreeSet::new()));
         }
-        Op::Change(u, t) => {
+        Op::Change(u, t, _) => {
             if let Some(e) = cl.open.get_mut(u) {
                 e.1 = *t;
             }
@@ -783,13 +824,12 @@ fn execute(w: &World, c: &Case, lenient: bool, executed: &mut Vec<K>) -> Outcome
                     }
                 }
                 s.settings = settings_of(&w.base, cl.ccfg);
-                if let Op::Open(u, ..) | Op::Change(u, _) = &op {
+                if let Op::Open(u, ..) | Op::Change(u, ..) = &op {
                     newest.insert(*u, (time, hs.len()));
                 }
                 let ud = World::read_words(&format!("{}/cfg/user.txt", w.base));
                 let fd = op.url().and_then(|u| w.fdict_path(u)).map(|p| World::read_words(&p)).unwrap_or_default();
-                // document versions increase with every message, as an editor's do
-                let (method, params, is_req) = request_of(w, c, &op, &cl, &ud, &fd, time as i64);
+                let (method, params, is_req) = request_of(w, c, &op, &cl, &ud, &fd);
                 let fut = s.start(method, params, is_req);
                 let saw = op.url().map(|u| cl.disk.get(&u).cloned());
                 hs.push(Handler { op, fut: Some(fut), pending: None, admitted: time, done: None, saw_disk: saw.into_iter().collect() });
@@ -886,11 +926,11 @@ fn candidates(c: &Case, u: Url) -> Vec<(Text, Lang)> {
     }
     for o in &c.ops {
         match o {
-            Op::Open(u2, l, t) if *u2 == u => {
+            Op::Open(u2, l, t, _) if *u2 == u => {
                 texts.insert(*t);
                 langs.insert(*l);
             }
-            Op::Change(u2, t) if *u2 == u => {
+            Op::Change(u2, t, _) if *u2 == u => {
                 texts.insert(*t);
             }
             _ => {}
@@ -1010,6 +1050,12 @@ fn emit(rep: &mut Report, ctx: &mut Ctx, c: &Case, o: &Outcome) {
     canon.append(&mut run);
     // ---- the property, evaluated on the real server's last word
     let mut stale: Vec<Url> = vec![];
+    // a client whose versions go backwards has no newest text the server could know of: such histories
+    // (malformed stream only) are compared with the model, the property is not evaluated on them
+    let increasing = versions_increase(&c.ops);
+    if !increasing {
+        rep.count("versions:not-increasing");
+    }
     if o.quiescent {
         for u in &urls {
             let got = last.get(u).map(|x| x.1.clone()).unwrap_or(json!([]));
@@ -1020,7 +1066,9 @@ fn emit(rep: &mut Report, ctx: &mut Ctx, c: &Case, o: &Outcome) {
             };
             if got != want {
                 stale.push(*u);
-                classify(rep, o, *u, by_url.get(u).map(|v| v.as_slice()).unwrap_or(&[]), &input);
+                if increasing {
+                    classify(rep, o, *u, by_url.get(u).map(|v| v.as_slice()).unwrap_or(&[]), &input);
+                }
             }
         }
         rep.count(if stale.is_empty() { "last-word:right" } else { "last-word:stale" });
@@ -1113,6 +1161,16 @@ fn classify(rep: &mut Report, o: &Outcome, u: Url, pubs: &[(Dec, usize)], input:
     let readable = u.is_file() && o.client.disk.contains_key(&u);
     let why_unreadable = if u.is_file() { "no such file" } else { "untitled" };
     let text_op_on_u = |op: &Op| matches!(op, Op::Open(..) | Op::Change(..) | Op::Save(_) | Op::Close(_)) && op.url() == Some(u) || matches!(op, Op::DelFile(..) | Op::DelDir(_)) && op.relevant_to(u);
+    // every handler that concerns u and whose life overlapped with that of h is a didChange of u
+    let only_changes_around = |h: usize| -> bool {
+        let (ref oph, adm, done, _) = o.handlers[h];
+        let done = done.unwrap_or(usize::MAX);
+        matches!(oph, Op::Change(..))
+            && o.handlers.iter().all(|(op2, adm2, done2, _)| {
+                let overlaps = *adm2 <= done && done2.unwrap_or(usize::MAX) >= adm;
+                !overlaps || !op2.relevant_to(u) || (matches!(op2, Op::Change(..)) && op2.url() == Some(u))
+            })
+    };
     let mut causes: Vec<(String, String)> = vec![];
     let unexplained = |causes: &mut Vec<(String, String)>, what: String| causes.push(("unexplained".into(), what));
     match (&dec, open) {
@@ -1145,7 +1203,13 @@ fn classify(rep: &mut Report, o: &Outcome, u: Url, pubs: &[(Dec, usize)], input:
             if text_stale {
                 let h = origin(&|d| matches!(d, Dec::T(x) if x.text == t.text && x.lang == t.lang)).unwrap();
                 let hop = &o.handlers[h].0;
-                if let Some(j) = overtaker(h, &text_op_on_u) {
+                if let (true, Some(j)) = (only_changes_around(h), overtaker(h, &text_op_on_u)) {
+                    // what the version check of update_document (DocumentState.version) rules out: nothing but
+                    // didChange handlers of this document overlapped with the one that installed the stale text
+                    causes.push(("version-order".into(), format!(
+                        "{}: {}; only didChange handlers of the document were in flight, yet the last word is computed from text {} (first published by {}), newest text is {}",
+                        u.tok(), reversed(j), t.text.tid, desc(h), text.tid)));
+                } else if let Some(j) = overtaker(h, &text_op_on_u) {
                     causes.push(("reorder".into(), format!(
                         "{}: {}; last word computed from text {} (first published by {}), newest text is {}",
                         u.tok(), reversed(j), t.text.tid, desc(h), text.tid)));
@@ -1250,7 +1314,27 @@ fn classify(rep: &mut Report, o: &Outcome, u: Url, pubs: &[(Dec, usize)], input:
 // ------------------------------------------------------------------------------------------------
 const URLS: [Url; 4] = [Url::File(0, 0), Url::File(0, 1), Url::File(1, 0), Url::Untitled(0)];
 
-fn random_op(r: &mut Rng, cl: &Client, next_tid: &mut usize, well_formed: bool, langs: &BTreeMap<Url, Lang>) -> Op {
+/// versions as editors number them: every message of a document one (or a few) higher than the previous one;
+/// a re-opened document either goes on counting or starts again at 1 (VS Code does the latter)
+#[derive(Default)]
+struct Versions {
+    cur: BTreeMap<Url, usize>,
+}
+impl Versions {
+    fn open(&mut self, r: &mut Rng, u: Url) -> usize {
+        let v = if r.chance(1, 3) { 1 } else { self.cur.values().max().cloned().unwrap_or(0) + 1 };
+        self.cur.insert(u, v);
+        v
+    }
+    fn change(&mut self, r: &mut Rng, u: Url, well_formed: bool) -> usize {
+        let c = self.cur.get(&u).cloned().unwrap_or(0);
+        let v = if !well_formed && r.chance(1, 5) { 1 + r.below(c.max(1)) } else { c + 1 + r.below(2) };
+        self.cur.insert(u, v.max(c));
+        v
+    }
+}
+
+fn random_op(r: &mut Rng, cl: &Client, next_tid: &mut usize, well_formed: bool, langs: &BTreeMap<Url, Lang>, vers: &mut Versions) -> Op {
     let open: Vec<Url> = cl.open.keys().cloned().collect();
     let closed: Vec<Url> = URLS.iter().filter(|u| !cl.open.contains_key(u)).cloned().collect();
     let any = |r: &mut Rng| *r.pick(&URLS);
@@ -1267,13 +1351,15 @@ fn random_op(r: &mut Rng, cl: &Client, next_tid: &mut usize, well_formed: bool, 
                 let u = if well_formed || r.chance(9, 10) { if closed.is_empty() { continue } else { *r.pick(&closed) } } else { any(r) };
                 let lang = langs[&u];
                 let t = fresh_text(r, next_tid, lang);
-                return Op::Open(u, lang, t);
+                let v = vers.open(r, u);
+                return Op::Open(u, lang, t, v);
             }
             18..=47 => {
                 let Some(u) = pick_open(r) else { continue };
                 let lang = cl.open.get(&u).map(|x| x.0).unwrap_or(Lang::P);
                 let t = fresh_text(r, next_tid, lang);
-                return Op::Change(u, t);
+                let v = vers.change(r, u, well_formed);
+                return Op::Change(u, t, v);
             }
             48..=59 => {
                 let Some(u) = pick_open(r) else { continue };
@@ -1305,10 +1391,10 @@ fn random_op(r: &mut Rng, cl: &Client, next_tid: &mut usize, well_formed: bool, 
 /// client-side bookkeeping only (no file system): used while generating histories
 fn ghost_effect(op: &Op, cl: &mut Client) {
     match op {
-        Op::Open(u, l, t) => {
+        Op::Open(u, l, t, _) => {
             cl.open.insert(*u, (*l, *t, BTreeSet::new()));
         }
-        Op::Change(u, t) => {
+        Op::Change(u, t, _) => {
             if let Some(e) = cl.open.get_mut(u) {
                 e.1 = *t;
             }
@@ -1356,8 +1442,9 @@ fn random_history(r: &mut Rng, len: usize, well_formed: bool) -> Case {
     // every document keeps one language throughout a case (the language the server parses with is not
     // observable; it can only differ from the client's after a didOpen of a document the server still holds)
     let langs: BTreeMap<Url, Lang> = URLS.iter().map(|u| (*u, *r.pick(&[Lang::P, Lang::P, Lang::M, Lang::M, Lang::C, Lang::X]))).collect();
+    let mut vers = Versions::default();
     for _ in 0..len {
-        let op = random_op(r, &cl, &mut next_tid, well_formed, &langs);
+        let op = random_op(r, &cl, &mut next_tid, well_formed, &langs, &mut vers);
         ghost_effect(&op, &mut cl);
         c.ops.push(op);
     }
@@ -1466,6 +1553,8 @@ fn all_plans(bounds: &[usize]) -> Vec<Vec<K>> {
 fn exhaustive(rep: &mut Report, ctx: &mut Ctx, base: &Case, prefix: &[Op], batch: &[Op]) -> u64 {
     let mut c = base.clone();
     c.ops = prefix.iter().cloned().chain(batch.iter().cloned()).collect();
+    // versions in the order the messages are sent
+    renumber(&mut c.ops);
     let p = prefix.len();
     let bounds: Vec<usize> = batch.iter().map(step_bound).collect();
     let mut seen: std::collections::HashSet<String> = Default::default();
@@ -1543,28 +1632,28 @@ fn thorough_works() -> Vec<Work> {
     let t = |n: usize| Text { tid: n, ident: 0 };
     // prefixes: (name, initial disk, messages handled one at a time)
     let prefixes: Vec<(&str, Vec<(Url, Text)>, Vec<Op>)> = vec![
-        ("clean-file+second", vec![], vec![Op::Open(a, Lang::M, t(0)), Op::Save(a), Op::Open(b, Lang::P, t(1)), Op::Save(b)]),
-        ("dirty-file", vec![(a, t(5))], vec![Op::Open(a, Lang::P, t(0))]),
-        ("untitled+file", vec![], vec![Op::Open(un, Lang::M, t(0)), Op::Open(a, Lang::P, t(1)), Op::Save(a)]),
-        ("code", vec![], vec![Op::Open(a, Lang::C, Text { tid: 0, ident: 1 }), Op::Save(a)]),
+        ("clean-file+second", vec![], vec![Op::Open(a, Lang::M, t(0), 0), Op::Save(a), Op::Open(b, Lang::P, t(1), 0), Op::Save(b)]),
+        ("dirty-file", vec![(a, t(5))], vec![Op::Open(a, Lang::P, t(0), 0)]),
+        ("untitled+file", vec![], vec![Op::Open(un, Lang::M, t(0), 0), Op::Open(a, Lang::P, t(1), 0), Op::Save(a)]),
+        ("code", vec![], vec![Op::Open(a, Lang::C, Text { tid: 0, ident: 1 }, 0), Op::Save(a)]),
     ];
     let mut works = vec![];
     for (pi, (name, disk, prefix)) in prefixes.iter().enumerate() {
         let first = match &prefix[0] {
-            Op::Open(u, l, _) => (*u, *l),
+            Op::Open(u, l, ..) => (*u, *l),
             _ => unreachable!(),
         };
         let ident = if first.1 == Lang::C { 1 } else { 0 };
         let alphabet: Vec<Op> = vec![
-            Op::Change(first.0, Text { tid: 2, ident }),
-            Op::Change(first.0, Text { tid: 3, ident }),
+            Op::Change(first.0, Text { tid: 2, ident }, 0),
+            Op::Change(first.0, Text { tid: 3, ident }, 0),
             Op::Close(first.0),
             Op::AddUser(0, first.0),
             Op::Save(first.0),
             Op::Cfg(1),
             Op::AddFile(2, first.0),
             Op::Ignore(first.0, 0),
-            Op::Change(a, Text { tid: 4, ident: 0 }),
+            Op::Change(a, Text { tid: 4, ident: 0 }, 0),
             Op::DelFile(0, 0),
         ];
         let base = Case { cfg0: 0, disk: disk.clone(), udict: vec![], fdict: vec![], ops: vec![], sched: vec![], origin: format!("exhaustive:{name}") };
